@@ -165,6 +165,10 @@ def insertSorted (x : Nat) : List Nat → List Nat
   | [] => [x]
   | y :: r => if x ≤ y then x :: y :: r else y :: insertSorted x r
 
+/-- `qbit_order`: `list(arange(n - k))` with `'remove'` (`none`) inserted at every sorted removed position -/
+def qbitOrder (n : Nat) (rmSorted : List Nat) : List (Option Nat) :=
+  rmSorted.foldl (fun o x => insertAt o x none) ((List.range (n - rmSorted.length)).map some)
+
 /-- `taper_off_qubits` -/
 def taperOffQubits (tol : Rat) (operator : Op) (stabs : List Op) (manual : Bool) (fixed : Option (List Nat)) :
     Except Err (Op × List Nat × Bool) := do
@@ -172,8 +176,7 @@ def taperOffQubits (tol : Rat) (operator : Op) (stabs : List Op) (manual : Bool)
   let n := max (countQubits operator) nStabs
   let (ham, rm, stale) ← reduceNumberOfTerms tol operator stabs false manual fixed
   let rmSorted := rm.foldr insertSorted []
-  let order0 : List (Option Nat) := (List.range (n - rm.length)).map some
-  let order := rmSorted.foldl (fun o x => insertAt o x none) order0
+  let order := qbitOrder n rmSorted
   let out ← ham.foldlM (fun (acc : Op) (e : Term × GQ) =>
     if e.1 = [] then .ok (Model.iadd tol acc (mk .qubit [] e.2))
     else do
@@ -192,6 +195,9 @@ def indexOf (l : List Nat) (x : Nat) : Nat :=
   | [] => 0
   | y :: r => if y = x then 0 else indexOf r x + 1
 
+/-- new index of a kept qubit: `j - len([q for q in qubits if q < j])` -/
+def shiftDown (R : List Nat) (j : Nat) : Nat := j - (R.filter fun q => q < j).length
+
 /-- `project_onto_sector` -/
 def projectOntoSector (tol : Rat) (operator : Op) (qubits sectors : List Nat) : Except Err Op :=
   if qubits.length ≠ sectors.length then .error .valueError
@@ -200,7 +206,7 @@ def projectOntoSector (tol : Rat) (operator : Op) (qubits sectors : List Nat) : 
     if term.any (fun t => qubits.contains t.1 && (t.2 == 1 || t.2 == 2)) then acc
     else
       let newTerm := (term.filter fun t => !qubits.contains t.1).map fun t =>
-        (t.1 - (qubits.filter fun q => q < t.1).length, t.2)
+        (shiftDown qubits t.1, t.2)
       let e := ((term.filter fun t => qubits.contains t.1).map fun t =>
         sectors[indexOf qubits t.1]?.getD 0).foldl (· + ·) 0
       Model.iadd tol acc (mk .qubit newTerm (factor * GQ.sgn e))) [])
@@ -230,15 +236,15 @@ def rotateQubitByPauli (tol : Rat) (qop pauli : Op) (c2 s2 : GQ) : Except Err Op
 
 /-- the scan of one term for one frozen `(index, occupancy)`:
 returns `(new_term, n_swaps, annihilated, final occupancy)` -/
+def freezeStep (item : Nat × Nat) (st : Term × Int × Bool × Nat × Int) (op : Factor × Nat) :
+    Term × Int × Bool × Nat × Int :=
+  if op.1.1 = item.1 then
+    (st.1, st.2.1 + ((op.2 : Int) - (st.2.2.2.2 + 1)), st.2.2.1 || (st.2.2.2.1 == op.1.2),
+      (st.2.2.2.1 + 1) % 2, st.2.2.2.2 + 1)
+  else (op.1 :: st.1, st.2.1, st.2.2.1, st.2.2.2.1, st.2.2.2.2)
+
 def freezeScan (item : Nat × Nat) (term : Term) : Term × Int × Bool × Nat :=
-  let r := term.reverse.zipIdx.foldl
-    (fun (st : Term × Int × Bool × Nat × Int) (op : Factor × Nat) =>
-      let (newTerm, nSwaps, dead, occ, nOps) := st
-      if op.1.1 = item.1 then
-        let nOps' := nOps + 1
-        (newTerm, nSwaps + ((op.2 : Int) - nOps'), dead || (occ == op.1.2), (occ + 1) % 2, nOps')
-      else (op.1 :: newTerm, nSwaps, dead, occ, nOps))
-    (([] : Term), (0 : Int), false, item.2, (0 : Int))
+  let r := term.reverse.zipIdx.foldl (freezeStep item) (([] : Term), (0 : Int), false, item.2, (0 : Int))
   (r.1, r.2.1, r.2.2.1, r.2.2.2.1)
 
 /-- one pass of the outer loop of `freeze_orbitals` -/
@@ -282,10 +288,13 @@ def editHamiltonianForSpin (tol : Rat) (A : Op) (spinOrbital : Nat) (parity : GQ
     else accum acc term c) []
   compress tol d
 
+/-- `new_index` of `remove_indices`: `index - len([i for i in indices if (i - 1) < index])` -/
+def newIndex (indices : List Nat) (j : Nat) : Nat := j - (indices.filter fun i => i < j + 1).length
+
 /-- `remove_indices(symbolic_operator, indices)` -/
 def removeIndices (A : Op) (indices : List Nat) : Op :=
   A.foldl (fun acc (t, c) =>
-    Dict.set acc (t.map fun f => (f.1 - (indices.filter fun i => i < f.1 + 1).length, f.2)) c) []
+    Dict.set acc (t.map fun f => (newIndex indices f.1, f.2)) c) []
 
 /-- the reduction part of `symmetry_conserving_bravyi_kitaev` applied to the (compressed)
 Bravyi-Kitaev-tree Hamiltonian on `n = active_orbitals` qubits -/
